@@ -40,7 +40,7 @@ chk("C05", "model_checking",
     "DESIGN.md §5 C05, §4.2")
 chk("C06", "fault_enumeration",
     "exhaustive crash-point enumeration: SIGKILL before and after every SQL-driver operation and at file-syscall entries (strace injection) of scripted histories on file-backed SQLite; a fresh process reopens and is judged against acknowledgements",
-    "For two histories (one log: first use/growth/refresh; two logs interleaved with refused forks) the worker process is killed before and after every one of the ~112 database/sql driver operations and on entry to every reachable file syscall on the database and its journal; a fresh process reopens the store (SQLite recovery), reports the state and probes the restarted witness. Oracle: stored rows are complete valid cosigned checkpoints; in-flight log holds the last acknowledged or the being-written checkpoint, other logs exactly the last acknowledged one; forks still refused, growth accepted.",
+    "For three histories (one log: first use/growth/refresh; two logs interleaved with refused forks; a log that is still empty) the worker process is killed before and after every one of the ~112 database/sql driver operations and on entry to every reachable file syscall on the database and its journal; a fresh process reopens the store (SQLite recovery), reports the state and probes the restarted witness. Oracle: stored rows are complete valid cosigned checkpoints; in-flight log holds the last acknowledged or the being-written checkpoint, other logs exactly the last acknowledged one; forks still refused, growth accepted.",
     "Process kill, not power loss (no torn sectors, no lost un-fsynced data). strace's injection counter cannot address syscalls on the journal fd before its path resolves, so about a quarter of the syscall boundaries (journal-only writes before the database file is touched) are covered only at driver-operation granularity; the number reached is in the evidence.",
     "DESIGN.md §5 C06, §4.3")
 chk("C10", "model_checking",
